@@ -487,7 +487,8 @@ def report_batch(ctx, b, verdicts, tstate, origin_keys):
                 ctx.add("records_token_identical")
             continue
 
-        def report(law, key, msg):
+        def report(law, key, msg, path=path, w=w, where=where, case=case):
+            # (defaults bind this record: the closure is also called after the loop, for mutants explained in a batch)
             ctx.add("rejected:" + law)
             kh = ctx.extra.setdefault("keys_reported", {})
             kh[key] = kh.get(key, 0) + 1
@@ -625,6 +626,9 @@ def run(ctx):
             f.write(src)
         gfiles.append(gf)
     ctx.add("generated_programs", len(gfiles))
+    # construct zoo: every comma list of the language in its 1- and 2-element form with trailing separators (gen/c17_zoo.dora)
+    zoo = os.path.join(VERIF, "gen", "c17_zoo.dora")
+    gfiles.append(zoo)
     batches.append(Batch(ctx, "generated", gfiles, widths, "repo", id_base=9 * 10_000_000))
     # mutants: origins = small files of the sample (so that the records of the unmodified files exist)
     small = [f for f in sample if os.path.getsize(f) < 6000]
@@ -640,6 +644,18 @@ def run(ctx):
         raise ToolError("no layout mutants were generated")
     manifest = {}
     for l in open(os.path.join(mdir, "manifest.ndjson")):
+        m = json.loads(l); manifest[m["file"]] = m
+    # ... and a comment (block / line) at EVERY token boundary of the zoo, one mutant per boundary and style
+    zdir = os.path.join(ctx.work, "zoo_mutants")
+    zlist = os.path.join(ctx.work, "zoo.list")
+    with open(zlist, "w") as f:
+        f.write(zoo + "\n")
+    zs = harness_json([VFMT, "mutants", zlist, zdir, ctx.seed, 0, "every-gap"], timeout=900)[-1]
+    ctx.extra["zoo_mutants"] = zs
+    ctx.add("layout_mutants", zs["mutants"])
+    if zs["mutants"] < 800:
+        raise ToolError(f"the construct zoo produced only {zs['mutants']} comment mutants")
+    for l in open(os.path.join(zdir, "manifest.ndjson")):
         m = json.loads(l); manifest[m["file"]] = m
     mfiles = sorted(manifest)
     assert set(mut_widths) <= set(widths)      # the unmodified origins at the mutant widths are in the repo batches
@@ -663,6 +679,7 @@ def run(ctx):
         "files the parser rejects are outside the property (skipped and counted)",
         "a Render mismatch that is still a layout of the document is model drift, not a violation (C17 does not bound line lengths)",
         "layout mutants: whitespace-only gaps are re-spaced/joined/split, one comment is inserted per comment mutant; every mutant is re-lexed (same code tokens) and re-parsed (no errors) before use",
+        "the `,` of a one-element tuple expression is a token of its own (mandatory); gen/c17_zoo.dora gets a block and a line comment at every token boundary",
     ]
 
 
